@@ -29,6 +29,9 @@ func (dec *Decoder) readObjectAsMap(structInfo structInfo) map[string]interface{
 	}
 	ptr := reflect2.PtrOf(&m)
 	for _, name := range structInfo.names {
+		if dec.Error != nil {
+			break // nothing more can be read: do not walk the remaining fields
+		}
 		var v interface{}
 		dec.decodeInterface(dec.NextByte(), &v)
 		t.UnsafeSetIndex(ptr, reflect2.PtrOf(name), reflect2.PtrOf(&v))
@@ -42,6 +45,9 @@ func (dec *Decoder) readObject(structInfo structInfo) interface{} {
 	dec.AddReference(obj)
 	ptr := reflect2.PtrOf(obj)
 	for _, name := range structInfo.names {
+		if dec.Error != nil {
+			break // nothing more can be read: do not walk the remaining fields
+		}
 		if field, ok := structInfo.fields[name]; ok {
 			field.Decode(dec, field.Type.Type1(), field.Field.UnsafeGet(ptr))
 		} else {
@@ -91,6 +97,9 @@ func (valdec *structDecoder) decodeObject(dec *Decoder, p interface{}) {
 	dec.AddReference(p)
 	ptr := reflect2.PtrOf(p)
 	for _, name := range structInfo.names {
+		if dec.Error != nil {
+			break // nothing more can be read: do not walk the remaining fields
+		}
 		valdec.decodeField(dec, ptr, name)
 	}
 	dec.Skip()
